@@ -30,7 +30,7 @@ import sim
 import views
 
 PID = "C01"
-PROPS = ["Aldy.Props.C01"]
+PROPS = ["Aldy.Props.C01", "Aldy.Props.C01Minor"]
 TRUSTED_EXTRA = ["pysam (BAM writing / reading)", "indelpost (indel realignment inside aldy)", "the read simulator sim.py"]
 ASSUMPTIONS = ["reads tile every retained region exactly (uniform depth), no sequencing error, mapping quality 60",
                "the oracle's first clause applies when the planted structure is among the optimal structures reported by the real CN stage"]
@@ -442,7 +442,7 @@ def tie(ctx):
     if not quick:
         pool += [{"kind": "shipped", "name": nme, "genome": r.choice(["hg19", "hg38"])} for nme in THOROUGH_SHIPPED]
     pool = [g for g in pool if consistent(instances.load_gene(g)[0])]
-    fam = {k: {"cases": 0, "disagreements": []} for k in ("planted_pipeline", "planted_major_premise", "planted_minor_point")}
+    fam = {k: {"cases": 0, "disagreements": []} for k in ("planted_pipeline", "planted_major_premise", "planted_minor_point", "planted_minor_premise")}
     violations = []
     stats = collections.Counter()
     distinct = set()
@@ -507,6 +507,18 @@ def tie(ctx):
                 fam["planted_minor_point"]["disagreements"].append(
                     {"why": f"the planted point scores {float(Fraction(o['objective'])):.6f} in the refinement model, solve_minor_model's best is {m['best']}; rows with error {o['bad_rows'][:4]}", "input": inp})
             stats["minor_planted_objective_zero"] += Fraction(o["objective"]) == 0
+            # hypotheses of the theorem planted_minor_zero (Props/C01Minor) decided on the real stage input: where they hold the
+            # theorem says the planted point is feasible with objective 0 and every optimum is exact - so the real optimum must be 0
+            fam["planted_minor_premise"]["cases"] += 1
+            stats["minor_theorem_applies"] += bool(o["planted_minor"])
+            stats["minor_with_phase_cells"] += o["n_phase_cells"] > 0
+            for cl in o["failing"]:
+                stats["minor_clause_fails_" + cl] += 1
+            if o["planted_minor"] and (m["best"] is None or abs(m["best"]) > 1e-6):
+                fam["planted_minor_premise"]["disagreements"].append(
+                    {"why": f"`PlantedMinor` holds on the real input of solve_minor_model (planted_minor_zero: the planted point is feasible with objective 0) but the best refinement reported scores {m['best']}", "input": inp})
+            elif not o["planted_minor"] and not (o["n_violated_cons"] or o["violated_vars"]) and Fraction(o["objective"]) == 0:
+                stats["minor_zero_point_outside_theorem"] += 1
     firstv = {}
     for v in violations:
         firstv.setdefault(v["signature"], v)
